@@ -60,6 +60,10 @@ def job_numeric(item):
         if out.variant == 'Err':
             if name == 'avg' and n == 0:
                 S.cand('c02:avg-empty', 'avg of an empty array is an error (specification: null)', {'expr': 'avg(`[]`)'}, {'op': 'search', 'expr': 'avg(`[]`)', 'doc': None}, expected=None); return
+            e_ = out.fields[0].v
+            if XP.reason_kind(e_) == 'parse':
+                w0 = wit(ex)
+                if w0: S.cand('c12:nonfinite-result-as-parse', f'{name}: a failing search (non-finite result) reports a Parse-class error with expression {XP.err_field(e_, "expression").concrete()!r}', {'fn': name, 'numbers': w0}, {'op': 'search', 'expr': f'{name}(@)', 'doc': w0 if name in ('sum', 'avg') else w0[0]}, expected='runtime error')
             w = wit(ex, [finite])
             if w: S.cand(f'c02:{name}-fails', f'{name} fails although the result is a finite number', {'fn': name, 'numbers': w}, {'op': 'search', 'expr': f'{name}(@)', 'doc': w if name in ('sum', 'avg') else w[0]}, expected='a number')
             else: S['vacuity'][f'{name} non-finite result is an error'] = True
@@ -108,6 +112,8 @@ def confirm(c, nd, nr):
     if c['key'].endswith('panic'): return any(o.get('kind') in ('panic', 'abort', 'hang') for o in obs.values()), obs
     d = obs['dev']
     if c['key'] == 'c02:avg-empty': return d.get('kind') != 'ok' or d.get('value') is not None, obs
+    if c['key'].endswith('-unstable'):
+        return any(o.get('kind') != 'ok' or o.get('value') != c['expected'] for o in obs.values()), obs
     if c['expected'] in ('numeric', 'a number'):
         # re-evaluate the numeric specification in Python on the concrete witness
         from vf.native import untag
